@@ -246,7 +246,7 @@ P("C16", module="AJ.Props.C16All", extra=[("AJ.Props.SlotCor2", ["C16"]), ("AJ.P
   suites=lambda tier: [S.StreamSuite(cfg=DEF), S.StreamSuite(cfg=CFG_ALL, n=800 if tier == "quick" else 60000), S.FilterSuite(cfg={"USE_DOUBLE": 0}, n=1500 if tier == "quick" else 60000)],
   partial=["reader chunking is a property of the real readers (correspondence)"])
 
-P("C17", module="AJ.Props.C17All", extra=[("AJ.Props.SlotCor", ["C17"]), ("AJ.Props.C17", ["C17"]), ("AJ.Props.C10Gen", ["C17"])], level_text="C17.hex_digit_is_source: the model's decodeHex agrees for all 256 bytes with the table regenerated on every run by calling the compiled JsonDeserializer::decodeHex. Theorems (for every code point / byte / byte string): Utf8::encodeCodepoint is UTF-8, decodeHex is right on every hex digit in both cases, surrogate recombination, "
+P("C17", module="AJ.Props.C17All", extra=[("AJ.Props.C17Gen", ["C17"]), ("AJ.Props.SlotCor", ["C17"]), ("AJ.Props.C17", ["C17"]), ("AJ.Props.C10Gen", ["C17"])], level_text="C17.escaping_is_source / unicode_decoding_is_source: for all 256 one-byte strings the serializer model writes what the compiled serializeJson writes, and for 342 texts with \\u escapes (UTF-8 length and surrogate boundaries, lone surrogates, pairs, malformed) the deserializer model gives the code and the bytes the compiled library gives on every run (translator tie, kernel evaluation). C17.hex_digit_is_source: the model's decodeHex agrees for all 256 bytes with the table regenerated on every run by calling the compiled JsonDeserializer::decodeHex. Theorems (for every code point / byte / byte string): Utf8::encodeCodepoint is UTF-8, decodeHex is right on every hex digit in both cases, surrogate recombination, "
   "\\uXXXX and surrogate pairs decode to UTF-8 at any position of a string (and key), whatever serializeJson writes for a byte string deserializeJson reads back identically, "
   "and bytes other than the eight special ones are emitted verbatim. Tables are regenerated from /repo. Exhaustive differential run over all code units, pairs, bytes and byte pairs.",
   level_note="Lean kernel; model validated exhaustively on this domain",
